@@ -1636,6 +1636,9 @@ class Message(ABC):
                     or self._include_default_value_for_oneof(
                         field_name=field_name, meta=meta
                     )
+                    # filled in place (``m.sub.items.append(x)``): emitted on
+                    # the wire as well, because it differs from the default
+                    or value != self._get_field_default(field_name)
                 ):
                     output[cased_name] = value.to_dict(casing, include_default_values)
             elif meta.proto_type == TYPE_MAP:
@@ -1978,6 +1981,7 @@ class Message(ABC):
                     or self._include_default_value_for_oneof(
                         field_name=field_name, meta=meta
                     )
+                    or value != self._get_field_default(field_name)
                 ):
                     output[cased_name] = value.to_pydict(casing, include_default_values)
             elif meta.proto_type == TYPE_MAP:
